@@ -41,6 +41,11 @@ type c11Case struct {
 	// error (they happen when the server tears down the passphrase mailboxes
 	// at the post-pairing switch).
 	DelFail int `json:"del_fail,omitempty"`
+	// LateKey: the static keys are exchanged out of band (SetRemote on both
+	// ConnData) after the Client and Server objects exist but before the
+	// first Dial / Accept: the first connection already uses the key-derived
+	// rendezvous and the KK pattern.
+	LateKey bool `json:"late_key,omitempty"`
 }
 
 type c11Outcome struct {
@@ -95,6 +100,10 @@ func runC11(t *testing.T, c *c11Case, known func(string) bool) (out c11Outcome) 
 			ccancel()
 			out.violation = "client setup: " + err.Error()
 			return
+		}
+		if c.LateKey {
+			_ = cdS.SetRemote(cliKey.PubKey())
+			_ = cdC.SetRemote(srvKey.PubKey())
 		}
 		fail := func(f string, a ...any) {
 			mu.Lock()
@@ -637,6 +646,7 @@ func genC11(t *rapid.T) *c11Case {
 	c.LatMs = rapid.SampledFrom([]int{0, 1, 50}).Draw(t, "lat")
 	c.CancelDialCtx = rapid.Bool().Draw(t, "cancel_dial_ctx")
 	c.DelFail = rapid.SampledFrom([]int{0, 0, 0, 1, 2}).Draw(t, "del_fail")
+	c.LateKey = c.ClientMax == 2 && rapid.IntRange(0, 5).Draw(t, "late_key") == 0
 	c.Actions = []sessAction{{Op: "connect", Arg: rapid.SampledFrom([]int{0, 0, 1, 500, 3000}).Draw(t, "first_offset")}}
 	ag := rapid.Custom(func(t *rapid.T) sessAction {
 		op := rapid.SampledFrom([]string{"connect", "connect", "transfer", "transfer", "close_client", "close_server", "wait", "intruder", "connect_early"}).Draw(t, "op")
